@@ -481,3 +481,33 @@ class SB:
     def out(self, ex, st, path, label=None):
         off, ty = self._ty(path)
         return (label or path, self.o, off, ty, ex.load(st, self.w.P(self.o, off), irty(ty)))
+
+
+CTY = {'mjtNum': 'f64', 'int': 'i32', 'float': 'f32', 'mjtByte': 'u8', 'mjtBool': 'u8', 'char': 'u8', 'mjtSize': 'i64', 'size_t': 'i64', 'uintptr_t': 'i64'}
+
+
+def full_struct(w, L, struct, macro, sizes, name, symbolic=(), default_size=1, values=None, sym_ints=False):
+    """Build a complete mjModel/mjData: every array of the X-macro table gets an object of its documented size.
+    sizes: {size field: n}; arrays listed in `symbolic` (or all int arrays if sym_ints) get symbolic cells, others are zero-filled.
+    Returns (SB, rows)."""
+    from . import build
+    rows = build.xmacro_table(macro, {k: v for k, v in sizes.items() if k.startswith('nuser_')})
+    sb = SB(w, L, struct, name, zero=True)
+    env = {}
+    for ty, aname, nr, es, nc in rows:
+        for ident in re.findall(r'[A-Za-z_]\w*', nr): env.setdefault(ident, sizes.get(ident, default_size))
+    for k, v in env.items():
+        try: sb.set(k, v)
+        except KeyError: pass
+    sb.sizes = env
+    for ty, aname, nr, es, nc in rows:
+        n = int(eval(nr, {}, dict(env))) * nc
+        ety = CTY[ty]
+        if values and aname in values:
+            sb.arr(aname, ety, n, list(values[aname]), name=name + '.' + aname)
+        elif aname in symbolic or (sym_ints and ety == 'i32'):
+            sb.arr(aname, ety, n, name=name + '.' + aname)
+        else:
+            o = w.obj(name + '.' + aname, n * TY[ety][0]).zeros()
+            off, t_ = sb._ty(aname); sb.o.put(off, 'ptr', (o, 0)); sb.arrays[aname] = (o, ety, n, None)
+    return sb, rows
